@@ -75,11 +75,36 @@ def register(gt):
         assert isinstance(imap, dict)
         for k, v in imap.items():
             assert isinstance(k, bytes), k
-        gen = _int_list_assigned(m.bech32_polymod, "GEN")
+        try:
+            gen = _int_list_assigned(m.bech32_polymod, "GEN")
+            gen_mode = "syntactic (literal GEN = [...] inside bech32_polymod)"
+        except (AssertionError, ValueError, SyntaxError, OSError, TypeError):
+            # the literal is not where the reader expects it (hoisted into a module constant, renamed, a table ...): the five
+            # generator constants are a finite function of the code's behaviour - polymod is GF(2)-linear in its state, so
+            # GEN[i] = polymod([2^i,0,0,0,0,0,0]) xor polymod([0]*7) - and the probed table is accepted only if the BIP173
+            # recurrence with it reproduces the code's polymod on a few hundred lists (otherwise: fail closed)
+            import random as _r
+            z7 = m.bech32_polymod([0] * 7)
+            gen = [m.bech32_polymod([1 << i, 0, 0, 0, 0, 0, 0]) ^ z7 for i in range(5)]
+
+            def ref(values):
+                chk = 1
+                for v in values:
+                    b = chk >> 25
+                    chk = (chk & 0x1FFFFFF) << 5 ^ v
+                    for i in range(5):
+                        chk ^= gen[i] if ((b >> i) & 1) else 0
+                return chk
+            rr = _r.Random(173)
+            for _ in range(400):
+                vals = [rr.randrange(32) for _ in range(rr.randrange(0, 60))]
+                assert ref(vals) == m.bech32_polymod(list(vals)), "bech32_polymod is not the BIP173 recurrence for any GEN table"
+            gen_mode = "behavioural probe (no literal GEN = [...] in bech32_polymod; constants recovered from polymod's linearity and checked on 400 lists)"
         # u.BECH32M_CONST is the name utils.py imported (the one segwit_addr/decode_segwit_addr use)
         assert u.BECH32M_CONST == m350.BECH32M_CONST, "utils.BECH32M_CONST differs from bip350.BECH32M_CONST"
         hrps = _bytes_list_in(u.assert_valid_segwit)
         out = gt.HEADER
+        out += "(* translator_mode GEN: %s *)\n" % gen_mode
         out += "Definition charset : bytes :=\n  %s.\n" % gt.coq_bytes(chars)
         out += "Definition separator : byte := %s.\n" % gt.coq_byte(sep[0])
         out += "Definition max_len : Z := %s.\n" % gt.coq_Z(m.bech32_max_len)
